@@ -22,20 +22,26 @@ type c08Layout struct {
 	name    string
 	files   []string
 	require string
+	// extra: files that exist throughout and are never touched by an event
+	extra map[string]string
 }
 
 var c08Layouts = []c08Layout{
-	{"flat", []string{"a.lua", "b.lua"}, "local m = require(\"b\")\nprint(m)\n"},
-	{"dotted", []string{"a.lua", "sub/b.lua"}, "local m = require(\"sub.b\")\nprint(m)\n"},
-	{"package", []string{"a.lua", "pkg/init.lua"}, "local m = require(\"pkg\")\nprint(m)\n"},
+	{"flat", []string{"a.lua", "b.lua"}, "local m = require(\"b\")\nprint(m)\n", nil},
+	{"dotted", []string{"a.lua", "sub/b.lua"}, "local m = require(\"sub.b\")\nprint(m)\n", nil},
+	{"package", []string{"a.lua", "pkg/init.lua"}, "local m = require(\"pkg\")\nprint(m)\n", nil},
+	// two modules of the same name in different directories: the one the events touch and a bystander
+	{"duplicate-name", []string{"a.lua", "sub1/b.lua"}, "local m = require(\"b\")\nprint(m)\n", map[string]string{"sub2/b.lua": "return {}\n"}},
 }
 
 var c08CurLayout = "flat"
+var c08Extra map[string]string
 
 func c08Use(l c08Layout) {
 	c08Files = l.files
 	c08Variants[5].text = l.require
 	c08CurLayout = l.name
+	c08Extra = l.extra
 }
 
 // content variants
@@ -145,6 +151,9 @@ func c08DiskFiles(s c08State) map[string]string {
 			m[c08Files[f]] = c08Variants[v].text
 		}
 	}
+	for k, v := range c08Extra {
+		m[k] = v
+	}
 	return m
 }
 
@@ -167,6 +176,11 @@ func c08Definitions(s *drv.Server, rel string) string {
 			continue
 		}
 		parts = append(parts, frSet(locsToFR(s, locs)))
+		if refs, err := s.References(rel, p[0], p[1]); err == nil {
+			parts = append(parts, "refs:"+frSet(locsToFR(s, refs)))
+		} else {
+			parts = append(parts, "refs-error:"+err.Error())
+		}
 	}
 	// bare-identifier completion behind the identifiers of the variants (labels of the alphabet's names only)
 	for _, p := range [][2]int{{0, 7}, {1, 7}} {
@@ -317,7 +331,15 @@ func c08Check(s *drv.Server, st c08State) (string, string) {
 		if g := diagKeys(got, false); g != want {
 			return "stale-diagnostics:client-has:" + typesOf(got) + ":fresh-has:" + typesOf(fv.diags[rel]), fmt.Sprintf("%s: fresh server [%s], client holds [%s]", rel, want, g)
 		}
-		if st.buf[f] >= 0 {
+		// answers to queries are only promised while NO document has unsaved edits (they may legitimately see another
+		// document's unsaved buffer)
+		anyDirty := false
+		for k := range c08Files {
+			if st.unsaved(k) || st.touched[k] {
+				anyDirty = true
+			}
+		}
+		if st.buf[f] >= 0 && !anyDirty {
 			if g := c08Definitions(s, rel); g != fv.defs[rel] {
 				return "definition-or-completion-differs-from-fresh-server", fmt.Sprintf("%s: fresh server [%s], history server [%s]", rel, fv.defs[rel], g)
 			}
@@ -325,7 +347,7 @@ func c08Check(s *drv.Server, st c08State) (string, string) {
 	}
 	// no diagnostics for files outside the two
 	for k := range s.Diags {
-		if k != c08Files[0] && k != c08Files[1] {
+		if _, isExtra := c08Extra[k]; k != c08Files[0] && k != c08Files[1] && !isExtra {
 			return "diagnostics-for-unknown-file", k
 		}
 	}
@@ -480,6 +502,14 @@ func init() {
 			cyc := c08Init{name: "b-open(syntax-error-on-disk)-edit-save-cycles", st: c08State{disk: [2]int{4, 1}, buf: [2]int{-1, -1}},
 				pre:   []c08Event{{"open", 1, 0}},
 				alpha: []c08Event{{"change", 1, 0}, {"change", 1, 1}, {"change", 1, 2}, {"save", 1, 0}, {"save-unwatched", 1, 0}}}
+			// a.lua (reads g) is open from the start, b.lua defines g: edits of b that are discarded by a close, deletions and
+			// re-creations of b are judged through the queries asked in a.lua
+			aopen := c08Init{name: "a-open-reads-g,b-defines-g", st: c08State{disk: [2]int{4, 3}, buf: [2]int{-1, -1}}, pre: []c08Event{{"open", 0, 0}}}
+			if tier == "thorough" {
+				sp = append(sp, c08Space(flat, aopen, 3, 6), c08Space(flat, aopen, 4, 6))
+			} else {
+				sp = append(sp, c08Space(flat, aopen, 2, 6), c08Space(flat, aopen, 3, 6))
+			}
 			cd := 6
 			if tier == "thorough" {
 				cd = 8
